@@ -29,8 +29,10 @@ VARIABLES l,        \* next line to consume
           tenv,     \* soil temperature envelope (C19)
           hist,     \* executed management actions (C10, C16), stage history (C09)
           gwseen,   \* groundwater level -> line index of its first occurrence (C15)
-          cal       \* the calendar date of the simulated day, kept by the successor machine of CalendarFn (C04, C05)
-vars == <<l, pc, ix, nsub, acc, prev, tenv, hist, gwseen, cal>>
+          cal,      \* the calendar date of the simulated day, kept by the successor machine of CalendarFn (C04, C05)
+          outs      \* counters over the records of the result files (C05, C16)
+vars == <<l, pc, ix, nsub, acc, prev, tenv, hist, gwseen, cal, outs>>
+NoOuts == [dcount |-> 0, dlast |-> 0, dprev |-> 0, ycount |-> 0, ylast |-> 0, ccount |-> 0]
 
 NoIx == [gen |-> 0, cfg |-> 0, top |-> 0, wea |-> 0, gw |-> 0, inp |-> 0, eva |-> 0, stp |-> 0,
          pre |-> 0, wat |-> 0, crop |-> 0, min |-> 0, mov |-> 0, nit |-> 0, den |-> 0, dend |-> 0, cropPrev |-> 0]
@@ -40,7 +42,7 @@ NoEnv == [init |-> FALSE, lo |-> 0, hi |-> 0]
 NoHist == [fert |-> <<>>, irr |-> <<>>, till |-> <<>>, sow |-> <<>>, harv |-> <<>>, crops |-> <<>>, stageDays |-> <<>>]
 
 TInit == /\ l = 1 /\ pc = "idle" /\ ix = NoIx /\ nsub = 0 /\ acc = NoAcc /\ prev = NoPrev
-         /\ tenv = NoEnv /\ hist = NoHist /\ gwseen = <<>> /\ cal = FirstDate
+         /\ tenv = NoEnv /\ hist = NoHist /\ gwseen = <<>> /\ cal = FirstDate /\ outs = NoOuts
 
 E == Trace[l]                                     \* the line being consumed
 IsEvent(e) == l <= Len(Trace) /\ Trace[l].ev = e /\ l' = l + 1
@@ -154,13 +156,23 @@ TRunEnd == /\ (IsEvent("run.end") \/ IsEvent("run.panic") \/ IsEvent("run.overfl
 TFilesScan == /\ IsEvent("files.scan") /\ pc \in {"ended", "panicked"}
               /\ Keep(<<pc, ix, nsub, acc, prev, tenv, hist, gwseen>>)
 
-TNext == TFilesScan \/ TGen \/ TRunStart \/ TRunConfig \/ TDayTop \/ TDayWeather \/ TDayGw \/ TDayInputs \/ TDayEvatra \/ TDaySteps
+\* the records of the result files, parsed by the harness, follow the run (C05, C16)
+TOut == /\ l <= Len(Trace) /\ Trace[l].ev \in {"out.daily", "out.yearly", "out.crop", "out.end", "out.missing"} /\ l' = l + 1
+        /\ pc \in {"ended", "panicked"}
+        /\ Keep(<<pc, ix, nsub, acc, prev, tenv, hist, gwseen>>)
+
+TNext == TFilesScan \/ TOut \/ TGen \/ TRunStart \/ TRunConfig \/ TDayTop \/ TDayWeather \/ TDayGw \/ TDayInputs \/ TDayEvatra \/ TDaySteps
          \/ TSubPre \/ TSubWater \/ TSubCrop \/ TNitroMineral \/ TNitroMove \/ TSubNitro \/ TDayDenit \/ TDayEnd \/ TRunEnd
 \* the calendar machine: set at the start of a run from the first simulated day number (declarative DateOfN),
 \* then advanced by the successor function once per simulated day
 CalNext == cal' = IF Trace[l].ev = "run.config" THEN DateOfN(Trace[l].begin)
                   ELSE IF Trace[l].ev = "day.top" /\ prev.has THEN NextDate(cal) ELSE cal
-TStep == TNext /\ CalNext
+OutNext == outs' = IF Trace[l].ev \in {"gen", "run.start"} THEN NoOuts
+                   ELSE IF Trace[l].ev = "out.daily" THEN [outs EXCEPT !.dcount = @ + 1, !.dprev = outs.dlast, !.dlast = Trace[l].n]
+                   ELSE IF Trace[l].ev = "out.yearly" THEN [outs EXCEPT !.ycount = @ + 1, !.ylast = Trace[l].n]
+                   ELSE IF Trace[l].ev = "out.crop" THEN [outs EXCEPT !.ccount = @ + 1]
+                   ELSE outs
+TStep == TNext /\ CalNext /\ OutNext
 TSpec == TInit /\ [][TStep]_vars
 
 \* the whole trace was consumed (a hook or the harness is out of step with the skeleton otherwise)
@@ -474,6 +486,37 @@ C10_SowHarvest == (AtRunEnd /\ Ev.ok /\ HasSched /\ ~Cfg.autoMan /\ ~Cfg.autoHar
    /\ Len(hist.harv) = Len(exp)
    /\ \A i \in 1..Len(exp) : (i <= Len(hist.harv) /\ i <= Len(hist.sow)) => hist.sow[i][1] = exp[i][1] /\ hist.harv[i][1] = exp[i][2]
 C10_All == C10_Irrigation /\ C10_IrrigationAmount /\ C10_Fertilisation /\ C10_FertAmounts /\ C10_Tillage /\ C10_SowHarvest
+
+
+\* =============================================================================================
+\* C05  output records: one per day / year / harvested crop, complete, in order, right number of fields
+\*      header: Gen.end = configured end date (day number), Gen.annual = <<month, day>>, Gen.rotCrops = crop codes of
+\*      the rotation entries (entry 1 = initial crop)
+\* =============================================================================================
+IsOut(k) == l > 1 /\ Ev.ev = k
+OutInt == Cfg.outint
+FirstMult(b, k) == b + ((k - (b % k)) % k)              \* smallest day number >= b that is a multiple of k
+LastMult(e, k) == e - (e % k)                           \* largest day number <= e that is a multiple of k
+C05_Fields == (l > 1 /\ Ev.ev \in {"out.daily", "out.yearly", "out.crop"}) => Ev.fields = Ev.cols
+C05_ValidDates == (l > 1 /\ Ev.ev \in {"out.daily", "out.yearly"}) => Ev.n > 0
+C05_DailyFirst == (IsOut("out.daily") /\ outs.dcount = 1) => Ev.n = FirstMult(Cfg.begin, OutInt)
+C05_DailyConsecutive == (IsOut("out.daily") /\ outs.dcount > 1) => Ev.n = outs.dprev + OutInt
+\* the last record is the last multiple not after the CONFIGURED end date, and there is a file with records
+C05_DailyEnd == (IsOut("out.end") /\ Ev.kind = "daily" /\ Has(Gen, "end")) => outs.dcount >= 1 /\ outs.dlast = LastMult(Gen.end, OutInt)
+C05_NoMissingFile == ~IsOut("out.missing")
+\* yearly: the k-th record is dated on the configured annual date of the k-th year that has this date inside the run
+RECURSIVE MonthOffset(_, _)
+MonthOffset(y, mm) == IF mm = 1 THEN 0 ELSE MonthOffset(y, mm - 1) + DaysInMonth(y, mm - 1)
+DayOfYearOf(y, m, d) == MonthOffset(y, m) + d
+AnnualN(y) == Jan1(y).n + DayOfYearOf(y, Gen.annual[1], Gen.annual[2]) - 1
+FirstAnnualYear == LET yb == YearOfN(Cfg.begin) IN IF AnnualN(yb) >= Cfg.begin THEN yb ELSE yb + 1
+C05_YearlyDates == (IsOut("out.yearly") /\ Has(Gen, "annual")) => Ev.n = AnnualN(FirstAnnualYear + outs.ycount - 1)
+C05_YearlyCount == (IsOut("out.end") /\ Ev.kind = "yearly" /\ Has(Gen, "annual")) =>
+   outs.ycount = Cardinality({y \in YearOfN(Cfg.begin)..YearOfN(Cfg.ende) : AnnualN(y) >= Cfg.begin /\ AnnualN(y) <= Cfg.ende})
+\* crop file: one record per harvested crop of the rotation, in rotation order, with the crop code of its entry
+C05_CropRecords == (IsOut("out.crop") /\ Has(Gen, "rotCrops")) => outs.ccount <= Len(Gen.rotCrops) /\ Ev.crop = Gen.rotCrops[outs.ccount]
+C05_CropCount == (IsOut("out.end") /\ Ev.kind = "crop") => outs.ccount = Len(hist.harv)
+C05_All == C05_Fields /\ C05_ValidDates /\ C05_DailyFirst /\ C05_DailyConsecutive /\ C05_DailyEnd /\ C05_NoMissingFile /\ C05_YearlyDates /\ C05_YearlyCount /\ C05_CropRecords /\ C05_CropCount
 
 \* ---------------------------------------------------------------------------------------------
 Alias == [l |-> l, pc |-> pc, nsub |-> nsub,
